@@ -181,6 +181,16 @@ func targets() []*target {
 			params: []string{"(m_stringToLevel : list (bytes * Z))", "(lvl : bytes)", "(tr_ : list lvl_event)"},
 			result: "Z * option unit * list lvl_event", final: "(0, None, tr_)"},
 
+		// Level.UnmarshalText / MarshalText (C17): the text form of a level is its name in levelToString, and reading a text
+		// is ParseLevel of it (lower-casing included) - nothing else; the receiver *level is the threaded binder level
+		{pkg: slogPkg, recv: "Level", fn: "UnmarshalText", coq: "unmarshal_text", file: "LevelNames", strict: true, fallback: "LevelRef.unmarshal_text_ref",
+			comment: "(returns (err, *level, trace))", tymap: map[string]string{"error": "option unit", "[]byte": "bytes"}, effects: []string{"level", "tr_"},
+			calls: map[string]callSpec{
+				"ParseLevel": {state: "(let '(l_, e_, t_) := parse_level m_stringToLevel %0 tr_ in (l_, e_, level, t_))"},
+			},
+			params: []string{"(m_stringToLevel : list (bytes * Z))", "(level : Z)", "(text : bytes)", "(tr_ : list lvl_event)"},
+			result: "option unit * Z * list lvl_event", final: "(None, level, tr_)"},
+
 		// ---- attribute assembly (C07) ----
 		// a *Entry is seen as the chain of own attribute lists from it up to the root (nil = the empty
 		// chain): e.attrs / e.owner are the head / the tail.  *kvps is threaded through as the binder
